@@ -4,6 +4,7 @@ import (
 	"bytes"
 	"fmt"
 	"github.com/XiXi-2024/xixi-kv/datafile"
+	"github.com/XiXi-2024/xixi-kv/vhook"
 	"github.com/bwmarrin/snowflake"
 	"github.com/cespare/xxhash"
 	"sync"
@@ -193,6 +194,7 @@ func (b *Batch) Commit() error {
 		return err
 	}
 
+	vhook.Point("commit.afterFlush")
 	// 追加批处理完成标识记录
 	logRecord := b.db.recordPool.Get().(*datafile.LogRecord)
 	logRecord.Key = append(logRecord.Key, b.batchID.Bytes()...)
@@ -203,6 +205,7 @@ func (b *Batch) Commit() error {
 		return err
 	}
 
+	vhook.Point("commit.afterSeal")
 	b.staged = nil
 	b.stageIndex = nil
 	b.committed = true
